@@ -250,7 +250,7 @@ func runCheck(id, tier string) int {
 		if r.Covers[lastCoverOf(r)] == 0 && len(r.StaticCovers) > 0 && r.Paths > 0 && false {
 			_ = r
 		}
-		if r.Paths == 0 {
+		if r.Paths == 0 && len(r.Violations) == 0 {
 			inconclusive = append(inconclusive, r.Harness+": no path completed")
 		}
 	}
